@@ -338,6 +338,41 @@ def gamma_egsf(ctx):
     ok = len(r) == 3 and all(is_zero(sp.expand(a - b)) for a, b in zip(r, want))
     ctx.ob('GAMMA-EGSF', loc, 'smooth evaluation: coordinates are reduced into one period starting half a sample spacing below 0, and within that margin the interpolant is blended with its image one period up, '
            'weight (1-x) going with a1+1 and (1-y) with a2+1 (weights sum to one)', bool(ok), 'got %s' % ([str(v) for v in r],), node=fn, key='blend')
+    # the caller's coordinate arrays are only read: period reduction works on the function's own copy
+    for smooth in (False, True):
+        log = []
+        obj, F = mk(log, R(3, 4))
+        ev = SymEval(aliases)
+        ev.np_override = {'numpy.piecewise': piecewise, 'numpy.ones_like': lambda v: arr([1] * len(np.ravel(v)))}
+        mine1, mine2 = arr(list(a1)), arr(list(a2))
+        _ret(ev.run_fn(fn, [obj], dict(a1=mine1, a2=mine2, smooth=smooth)), 'E_gsf')
+        ctx.ob('GAMMA-EGSF', loc, 'smooth=%s: coordinate arrays passed in are left as given (the reduction by whole periods is done on a copy)' % smooth, equal(mine1, arr(list(a1)), deep=False) and equal(mine2, arr(list(a2)), deep=False),
+               'a1 -> %s, a2 -> %s' % ([str(v) for v in mine1], [str(v) for v in mine2]), node=fn, key='caller arrays %s' % smooth)
+    # delta(): same routing and reduction, no blending
+    dfn = ctx.fn(GS, 'GammaSurface.delta')
+    dloc = GS + '::GammaSurface.delta'
+    Dl = sp.Function('Dl')
+    for smooth in (False, True):
+        log = []
+        obj, F = mk(log, R(3, 4))
+
+        class DD(PyStub):
+            def __contains__(self, k):
+                return k in ('a1', 'a2', 'E_gsf', 'delta')
+        obj.attrs['data'] = DD()
+        obj.attrs['_GammaSurface__delta_fit'] = lambda a, b: (log.append(('fit', np.array(a, dtype=object), np.array(b, dtype=object))) or np.array([Dl(x, y) for x, y in zip(np.ravel(a), np.ravel(b))], dtype=object))
+        obj.attrs['_GammaSurface__delta_nearest'] = lambda pts: (log.append(('nearest', np.array(pts, dtype=object))) or np.array([Dl(*r) for r in np.asarray(pts, dtype=object)], dtype=object))
+        give1, give2 = [R(5, 2), R(-3, 4), R(1, 3)], [R(-9, 4), R(7, 4), R(2, 3)]
+        mine1, mine2 = arr(list(give1)), arr(list(give2))
+        try:
+            r = np.ravel(_ret(SymEval(aliases).run_fn(dfn, [obj], dict(a1=mine1, a2=mine2, smooth=smooth)), 'delta'))
+        except Opaque as e:
+            raise AnalysisError('delta (smooth=%s): %s' % (smooth, e))
+        wantpts = [(R(1, 2), R(3, 4)), (R(1, 4), R(3, 4)), (R(1, 3), R(2, 3))]
+        ok = len(r) == 3 and all(is_zero(a - Dl(*b)) for a, b in zip(r, wantpts)) and len(log) == 1 and log[0][0] == ('fit' if smooth else 'nearest')
+        ctx.ob('GAMMA-EGSF', dloc, 'smooth=%s: fractional coordinates are reduced by whole periods into [0, 1] and handed to the %s interpolant of the plane separation' % (smooth, 'radial-basis' if smooth else 'nearest-sample'), bool(ok),
+               'got %s' % ([str(v) for v in r],), node=dfn, key='delta wrap %s' % smooth)
+        ctx.ob('GAMMA-EGSF', dloc, 'smooth=%s: coordinate arrays passed in are left as given' % smooth, equal(mine1, arr(list(give1)), deep=False) and equal(mine2, arr(list(give2)), deep=False), node=dfn, key='delta caller arrays %s' % smooth)
     paths = SymEval(aliases).run_fn(fn, [SymObj(cls, {'_GammaSurface__hasdata': False}, 'self')], dict(a1=[0], a2=[0]))
     ctx.ob('GAMMA-EGSF', loc, 'evaluation without data is refused', not [p for p in paths if p.done == 'return'], node=fn, key='nodata')
 
@@ -453,6 +488,18 @@ def pn_terms(ctx):
             ctx.ob('PN-TERMS', loc + 'stress_energy', '%s: the short expression differs from the full one only through the two end disregistries (same force on the interior points)' % tag,
                    all(is_zero(sp.diff(diff, v)) for v in interior), 'difference depends on %s' % [str(v) for v in interior if not is_zero(sp.diff(diff, v))][:4], node=ctx.fn(PN, 'SDVPN.stress_energy'), key='stress alt ' + tag)
         ctx.ob('PN-TERMS', loc + 'stress_energy', '%s: the stress term uses the profile passed in' % tag, not dep_old(sp.sympify(e_alt)) and not dep_old(sp.sympify(e_full)), node=ctx.fn(PN, 'SDVPN.stress_energy'), key='stress arg ' + tag)
+    # every term is governed by its own finite-difference option (the three options are documented and set separately)
+    for name, flag in (('surface_energy', 'cdiffsurface'), ('elastic_energy', 'cdiffelastic'), ('stress_energy', 'cdiffstress')):
+        for cd in (False, True):
+            try:
+                ref = run(name, obj(cd), x, d)
+                o = obj(not cd)
+                o.attrs[flag] = cd
+                got = run(name, o, x, d)
+            except WouldRaise:
+                continue
+            ctx.ob('PN-TERMS', loc + name, '%s=%s decides how the density of this term is differenced, whatever the options of the other terms' % (flag, cd), is_zero(sp.expand(sp.expand_log(sp.sympify(got) - sp.sympify(ref), force=True))),
+                   node=ctx.fn(PN, 'SDVPN.' + name), key='own flag %s %s' % (name, cd))
     # no term depends on what the object was evaluated with before (same number of points, another spacing and profile)
     h2 = sp.Symbol('h2', positive=True)
     x2 = arr([x0 + i * h2 for i in range(n)])
@@ -522,6 +569,67 @@ def pn_terms(ctx):
                key='total ' + tag)
     if deferred:
         raise AnalysisError(' || '.join(deferred))
+
+
+def pn_init(ctx):
+    """the constructor takes the Volterra solution into the [m, n, ξ] frame: energy coefficients, Burgers vector and transform all by the same rotation"""
+    fn = ctx.fn(PN, 'SDVPN.__init__')
+    loc = PN + '::SDVPN.__init__'
+    aliases = module_aliases(ctx.mod(PN))
+    cls = ctx.fn(PN, 'SDVPN')
+    R = sp.Rational
+    # a proper rotation that is not symmetric: rows are m, n, ξ in the frame the Volterra solution was computed in
+    Q = np.array([[R(2, 3), R(-1, 3), R(2, 3)], [R(2, 3), R(2, 3), R(-1, 3)], [R(-1, 3), R(2, 3), R(2, 3)]], dtype=object)
+    k = symarray('K', (3, 3), real=True)
+    Ks = np.array([[k[min(i, j), max(i, j)] for j in range(3)] for i in range(3)], dtype=object)
+    p_, q_ = sp.Symbol('bm', real=True), sp.Symbol('bxi', real=True)
+    bvec = p_ * Q[0] + q_ * Q[2]        # in the slip plane
+    T0 = np.array([[R(0), R(1), R(0)], [R(0), R(0), R(1)], [R(1), R(0), R(0)]], dtype=object)     # crystal -> Volterra frame (a proper rotation)
+
+    class Vol(PyStub):
+        m, n, ξ = Q[0].copy(), Q[1].copy(), Q[2].copy()
+        K_tensor = Ks.copy()
+        burgers = bvec.copy()
+        transform = T0.copy()
+
+    class Gam(PyStub):
+        planenormal = T0.T.dot(Q[1])      # the slip-plane normal in crystal coordinates
+
+    o = SymObj(cls, {}, 'self')
+    ev = SymEval(aliases)
+    try:
+        paths = ev.run_fn(fn, [o], dict(volterra=Vol(), gamma=Gam(), cutofflongrange=sp.Symbol('Lc', positive=True)))
+    except Opaque as e:
+        raise AnalysisError('SDVPN.__init__: %s' % e)
+    done = [p for p in paths if p.done == 'return']
+    ctx.ob('PN-INIT', loc, 'a Volterra solution and a gamma surface on the same slip plane are accepted', len(done) == 1, str([(p.done, str(getattr(p, 'exc', ''))[:80]) for p in paths]), node=fn, key='accepted')
+    if len(done) != 1:
+        return
+
+    def get(name):
+        v = o.attrs.get('_SDVPN__' + name, o.attrs.get(name))
+        return None if v is None else np.asarray(v, dtype=object)
+    Kn, bn, Tn = get('K_tensor'), get('burgers'), get('transform')
+    ok = Kn is not None and bn is not None and Tn is not None and Kn.shape == (3, 3) and bn.shape == (3,) and Tn.shape == (3, 3)
+    ctx.ob('PN-INIT', loc, 'the solution keeps energy coefficients, Burgers vector and transform', bool(ok), node=fn, key='kept')
+    if not ok:
+        return
+    ctx.ob('PN-INIT', loc, 'the Burgers vector is expressed along [m, n, ξ]: components (b·m, b·n, b·ξ) = (bm, 0, bξ)', equal(bn, np.array([p_, 0, q_], dtype=object), deep=False), 'burgers = %s' % ([str(sp.expand(v)) for v in bn],), node=fn, key='burgers')
+    want = Q.dot(Ks.dot(Q.T))
+    ctx.ob('PN-INIT', loc, 'the energy-coefficient tensor is rotated into the same frame as the Burgers vector, K\' = R K Rᵀ with R = [m, n, ξ] (so that b·K·b, the prelogarithmic energy, is unchanged)',
+           equal(Kn, want, deep=False) and is_zero(sp.expand(bn.dot(Kn.dot(bn)) - bvec.dot(Ks.dot(bvec)))), node=fn, key='K rotated')
+    ctx.ob('PN-INIT', loc, 'the transform takes crystal vectors to the [m, n, ξ] frame: R·T, under which the gamma surface\'s plane normal becomes the y axis', equal(Tn, Q.dot(T0), deep=False) and equal(Tn.dot(Gam.planenormal), np.array([0, 1, 0], dtype=object), deep=False),
+           node=fn, key='transform')
+    # a gamma surface of another plane is refused
+    class Gam2(PyStub):
+        planenormal = T0.T.dot(Q[0])
+    paths = SymEval(aliases).run_fn(fn, [SymObj(cls, {}, 'self')], dict(volterra=Vol(), gamma=Gam2(), cutofflongrange=sp.Integer(1000)))
+    ctx.ob('PN-INIT', loc, 'a gamma surface of another plane is refused', not [p for p in paths if p.done == 'return'], node=fn, key='other plane')
+    # a Burgers vector out of the slip plane is refused
+    class Vol2(Vol):
+        burgers = Q[1].copy()
+    paths = SymEval(aliases).run_fn(fn, [SymObj(cls, {}, 'self')], dict(volterra=Vol2(), gamma=Gam(), cutofflongrange=sp.Integer(1000)))
+    ctx.ob('PN-INIT', loc, 'a Burgers vector out of the slip plane is refused', not [p for p in paths if p.done == 'return'], node=fn, key='out of plane')
 
 
 def pn_solve(ctx):
@@ -625,4 +733,4 @@ def run(ctx):
                        'the arctangent pair is differentiated by the CAS. Not decided: interpolation accuracy, energy decrease under minimisation, the classical half-width.')
     # "accepts a position given in fractional, Cartesian or plotting coordinates interchangeably": every coordinate parameter is array-like (lists and tuples included)
     from .. import lints
-    ctx.run_rules([gamma_set, gamma_conv, gamma_fit, gamma_egsf, pn_terms, pn_solve, arctan, grids, api, lambda c: lints.arraylike(c, 'ARRAY-LIKE', GS, floor=40)])
+    ctx.run_rules([gamma_set, gamma_conv, gamma_fit, gamma_egsf, pn_terms, pn_init, pn_solve, arctan, grids, api, lambda c: lints.arraylike(c, 'ARRAY-LIKE', GS, floor=40)])
